@@ -321,6 +321,44 @@ def _announce_form_b(ctx, res, pl, dest, tok, nx):
     ks = Sym(kb)
     ks.run()
     cps = ks.complete_paths()
+    if len(cps) == 2 and all(len(p.conds) == 1 for p in cps):
+        # normal form of `tokens.get(node).map(|token| (node, token))`: a match on the lookup
+        somes = [p for p in cps if agg_variant(p.ret) == 'Some']
+        nones = [p for p in cps if agg_variant(p.ret) == 'None']
+        if len(somes) != 1 or len(nones) != 1:
+            return False, 'filter_map closure is not a lookup in announce_tokens'
+        lit = literal(somes[0].conds[0])
+        g = strip_transparent(lit[1])
+        if not (lit[0] == 'variant' and option_is_some(lit[2]) is True and g[0] == 'call' and g[1].split('::')[-1] == 'get' and literal(nones[0].conds[0])[1] == lit[1]):
+            return False, 'filter_map closure is not a lookup in announce_tokens'
+        recv, key = strip_transparent(g[2][0]), strip_transparent(g[2][1])
+        ch = field_chain(recv)
+        caps = [strip_transparent(c) for c in fcl[2]]
+        cap = caps[kb.upvars.index(ch[0])] if ch and ch[0] in kb.upvars and is_param(root_of(recv)) and root_of(recv)[1] == 1 else None
+        if cap is None or not self_field(cap, 'announce_tokens'):
+            return False, 'the map consulted is not announce_tokens'
+        if not (is_param(root_of(key)) and root_of(key)[1] == 2 and field_chain(key)[-1:] == ['1']):
+            return False, 'the key is not the node of the candidate entry'
+        tup = somes[0].ret[2].get('0')
+        if not (isinstance(tup, tuple) and tup[0] == 'agg' and tup[1] == 'tuple'):
+            return False, 'the element is not (node, token)'
+        e0, e1 = strip_transparent(tup[2].get('0')), strip_transparent(tup[2].get('1'))
+        payload = ('field', ('downcast', lit[1], 'Some'), '0')
+        if strip_transparent(e1) != strip_transparent(payload) and e1 != payload:
+            return False, 'second component is not the token found'
+        if not (is_param(root_of(e0)) and root_of(e0)[1] == 2 and field_chain(e0)[-1:] == ['1']):
+            return False, 'first component is not the node that was looked up'
+        fc = field_chain(dest)
+        if fc[-2:] != ['0', 'addr']:
+            return False, 'destination is not the address of the loop node'
+        tk = strip_transparent(tok)
+        tnx = find_calls(tk, '::next')
+        core = tk
+        while isinstance(core, tuple) and core and core[0] == 'call' and core[1].split('::')[-1] in ('clone', 'to_vec', 'to_owned', 'as_ref', 'deref'):
+            core = strip_transparent(core[2][0])
+        if tnx != nx or field_chain(core)[-1:] != ['1']:
+            return False, 'token is not the token component of the loop element'
+        return True, ''
     if len(cps) != 1 or cps[0].conds:
         return False, 'filter_map closure branches'
     r = strip_transparent(cps[0].ret)
